@@ -39,7 +39,8 @@ def case(draw):
         for _ in range(draw(st.integers(1, 5))):
             x = draw(st.integers(-9, 9))
             truth = draw(st.integers(0, 9)) > 1 if draw(st.booleans()) else True
-            wrap = draw(st.sampled_from(["plain", "plain", "if_true", "if_false", "while0", "while1", "while3", "for0", "for2", "callee", "else_branch"]))
+            wrap = draw(st.sampled_from(["plain", "plain", "if_true", "if_false", "while0", "while1", "while3", "for0", "for2", "callee", "else_branch",
+                                         "after_for_break", "after_while_break", "after_for_continue", "after_nested_break", "in_for_after_break_of_inner"]))
             form = draw(st.sampled_from(["call_eq", "call_lt", "literal", "and", "not"]))
             asserts.append({"x": x, "truth": truth, "wrap": wrap, "form": form})
         funcs.append({"k": k, "c": c, "shadow": has_shadow, "asserts": asserts, "ext": ext})
@@ -114,6 +115,17 @@ def build(c):
                 n = int(w[3:])
                 body += ["    for q_%d_%d in (range 0 %d) {" % (fi, ai, n), "        assert %s" % ct, "    }"]
                 executed = n > 0
+            elif w == "after_for_break":
+                body += ["    for q_%d_%d in (range 0 3) {" % (fi, ai), "        if (== q_%d_%d 1) {" % (fi, ai), "            break", "        }", "    }", "    assert %s" % ct]
+            elif w == "after_for_continue":
+                body += ["    for q_%d_%d in (range 0 3) {" % (fi, ai), "        if (== q_%d_%d 1) {" % (fi, ai), "            continue", "        }", "    }", "    assert %s" % ct]
+            elif w == "after_while_break":
+                v = "w_%d_%d" % (fi, ai)
+                body += ["    let mut %s: int = 0" % v, "    while (< %s 5) {" % v, "        set %s (+ %s 1)" % (v, v), "        if (== %s 2) {" % v, "            break", "        }", "    }", "    assert %s" % ct]
+            elif w == "after_nested_break":
+                body += ["    if (== 1 1) {", "        for q_%d_%d in (range 0 3) {" % (fi, ai), "            if (== q_%d_%d 0) {" % (fi, ai), "                break", "            }", "        }", "    }", "    assert %s" % ct]
+            elif w == "in_for_after_break_of_inner":
+                body += ["    for o_%d_%d in (range 0 2) {" % (fi, ai), "        for q_%d_%d in (range 0 3) {" % (fi, ai), "            if (== q_%d_%d 1) {" % (fi, ai), "                break", "            }", "        }", "        assert %s" % ct, "    }"]
             elif w == "callee":
                 cn = "chk_%d_%d" % (fi, ai)
                 callees.append("fn %s(z: int) -> int {\n    assert %s\n    return z\n}\nshadow %s { assert true }" % (cn, ct, cn))
